@@ -738,7 +738,8 @@ def m_str_eq(c):
     b = deref(c.st, c.args[1])
     if not (isinstance(a, Str) and isinstance(b, Str)):
         raise Unsupported('str eq on ' + type(a).__name__)
-    r = a.id == b.id
+    from .models_std import str_equal
+    r = str_equal(c.st, a, b)
     return z3.simplify(z3.Not(r) if c.canon.endswith('::ne') else r)
 
 
@@ -763,3 +764,41 @@ def m_opt_eq(c):
 
 def _is_plain_scalar_struct(v):
     return False
+
+
+@model('core::slice::copy_from_slice', 'core::slice::clone_from_slice')
+def m_copy_from_slice(c):
+    from .exec import Panic
+    dst = as_seq(c.st, c.args[0])
+    src = as_seq(c.st, c.args[1])
+    n, k = dst.length(c.st), src.length(c.st)
+    if n != k:
+        raise Panic('copy_from_slice: source slice length does not match destination')
+    items = list(src.items(c.st))
+    for i, v in enumerate(items):
+        dst.store(i, v, c.st)
+    return UNIT
+
+
+@pattern(r'^<\[.*\] as PartialEq(<.*>)?>::(eq|ne)$|^<Vec as PartialEq(<.*>)?>::(eq|ne)$|^<&\[.*\] as PartialEq(<.*>)?>::(eq|ne)$')
+def m_seq_eq(c):
+    a = as_seq(c.st, c.args[0])
+    b = as_seq(c.st, c.args[1])
+    ia, ib = a.items(c.st), b.items(c.st)
+    if len(ia) != len(ib):
+        r = z3.BoolVal(False)
+    else:
+        for x in ia + ib:
+            if not (isinstance(x, (Int, Str)) or z3.is_bool(x)):
+                raise Unsupported('sequence == on non-scalar elements')
+        r = z3.And([c.st.val_eq(x, y) for x, y in zip(ia, ib)]) if ia else z3.BoolVal(True)
+    return z3.simplify(z3.Not(r) if c.canon.endswith('ne') else r)
+
+
+@pattern(r'^<\[.*\] as IndexMut<(Range|RangeFrom|RangeTo)>>::index_mut$|^<Vec as IndexMut<(Range|RangeFrom|RangeTo)>>::index_mut$')
+def m_index_mut_range(c):
+    if 'RangeFrom' in c.canon:
+        return m_index_rangefrom(c)
+    if 'RangeTo' in c.canon:
+        return m_index_rangeto(c)
+    return m_index_range(c)
